@@ -276,6 +276,44 @@ fn length_sweeps(c: &Corpus, chk: &mut Check, tier: Tier) {
     }
 }
 
+/// bodies above 64 KiB that the library accepts (u32-counted integer arrays): read, consumed, re-written identically
+fn big_counted_frames(c: &Corpus, chk: &mut Check) {
+    for ep in c.eps.iter() {
+        let Ns::World(exp) = ep.ns() else { continue };
+        let sizes: &[usize] = if ep.dir() == Direction::Client { &[0x2000, 0x27F8] } else if exp == Expansion::Wrath { &[0x7FF8, 0x8000, 0xFFF8, 0x1_0000, 0x1_0004, 0x2_0000, 0x7_FFF0, 0x7F_FFF0] } else { &[0x7FF8, 0x8000, 0xFFF0, 0xFFF8] };
+        for (name, frame) in c.counted_array_frames(ep.ns(), ep.dir(), sizes) {
+            chk.eval();
+            chk.count("counted-array-frame");
+            chk.nontrivial(vcommon::fnv(format!("big|{}|{}", ep.label(), frame.len()).as_bytes()));
+            let label = format!("{}/{}", ep.label(), name);
+            match ep.read_one(&frame) {
+                Outcome::Ok { consumed, rewritten, .. } => {
+                    if consumed != frame.len() {
+                        chk.fail(&format!("c02:{}:big-consumed", label), &format!("frame of {} bytes: consumed {}", frame.len(), consumed), json!({"endpoint": ep.label(), "message": name, "frame_len": frame.len()}));
+                    }
+                    match rewritten {
+                        Ok(w) if w == frame => {}
+                        Ok(w) => {
+                            chk.fail(&format!("c02:{}:big-rewritten-differs", label), &format!("frame of {} bytes re-written as {} bytes, header {}", frame.len(), w.len(), vcommon::hex(&w[..w.len().min(8)])), json!({"endpoint": ep.label(), "message": name, "frame_len": frame.len()}));
+                        }
+                        Err(m) => {
+                            let total = frame.len();
+                            let sig = if total > 0xFFFF && (exp != Expansion::Wrath || ep.dir() == Direction::Client) { "c02:*:u16-total-overflow".to_string() } else { format!("c02:{}:big-write-failed", label) };
+                            chk.fail(&sig, &format!("frame of {} bytes: {}", frame.len(), m), json!({"endpoint": ep.label(), "message": name, "frame_len": frame.len()}));
+                        }
+                    }
+                }
+                Outcome::Err { class, debug, .. } => {
+                    chk.fail(&format!("c02:{}:big-rejected:{}", label, class.kind()), &format!("frame of {} bytes rejected: {}", frame.len(), debug.chars().take(160).collect::<String>()), json!({"endpoint": ep.label(), "message": name, "frame_len": frame.len()}));
+                }
+                Outcome::Panic { message, location } => {
+                    chk.fail(&format!("c02:{}:big-panic:{}", label, rel_location(&location)), &format!("frame of {} bytes: {}", frame.len(), message), json!({"endpoint": ep.label(), "message": name, "frame_len": frame.len()}));
+                }
+            }
+        }
+    }
+}
+
 fn streams(c: &Corpus, chk: &mut Check, tier: Tier) {
     let seed = chk.seed;
     let typed_sets = typed::all();
@@ -512,6 +550,7 @@ pub fn run(tier: Tier, replay: Option<String>) -> i32 {
     merge(&mut c, reports, 4);
     if only.is_none() {
         length_sweeps(&corpus, &mut c, tier);
+        big_counted_frames(&corpus, &mut c);
         streams(&corpus, &mut c, tier);
     }
     c.finish()
